@@ -4,6 +4,7 @@ import (
 	"fmt"
 	"go/token"
 	"go/types"
+	"math/big"
 	"strings"
 
 	"golang.org/x/tools/go/ssa"
@@ -290,7 +291,12 @@ func (fr *frame) mergeMem(preds []*ssa.BasicBlock, conds []Term) *Mem {
 		allSame := true
 		var terms []Term
 		for _, p := range preds {
-			t := ft.memGet(fr.exit[p].mem, k, sortS)
+			var t Term
+			if _, has := fr.exit[p].mem.m[k]; !has && strings.HasPrefix(k, "$F:") {
+				t = constArr(failSort(), tFalse) // ghost fail-stop flag never raised on this path
+			} else {
+				t = ft.memGet(fr.exit[p].mem, k, sortS)
+			}
 			terms = append(terms, t)
 			if t.T != terms[0].T {
 				allSame = false
@@ -381,6 +387,10 @@ func (fr *frame) run(pc Term, mem *Mem) {
 			for _, ph := range phis {
 				fr.vals[ph] = ft.freshVal(fmt.Sprintf("%s$%s", ph.Name(), ph.Comment), ph.Type())
 			}
+			if fr.loopEntryMem == nil {
+				fr.loopEntryMem = map[*loopInfo]*Mem{}
+			}
+			fr.loopEntryMem[li] = st.mem.clone()
 			fr.assumeInvariants(li)
 		} else {
 			for _, ph := range phis {
@@ -422,6 +432,7 @@ func (fr *frame) run(pc Term, mem *Mem) {
 					}
 				}
 				fr.checkInvariants(lh, c, fr.cur.mem, over, "inv-pres", b.Instrs[len(b.Instrs)-1].Pos())
+				fr.failstopAtBackEdge(c, fr.cur.mem, lh, b.Instrs[len(b.Instrs)-1].Pos())
 			}
 		}
 	}
@@ -657,6 +668,9 @@ func extendTo(t Term, w int, signed bool, to int) Term {
 		// Same-width conversions between signed and unsigned are handled by convertInt (needs target signedness).
 		if to >= w {
 			return t
+		}
+		if v, ok := intLitVal(t); ok {
+			return intLitBig(new(big.Int).Mod(v, pow2(to)))
 		}
 		return Term{SInt, fmt.Sprintf("(mod %s %s)", t.T, pow2(to).String())}
 	}
